@@ -389,6 +389,20 @@ def rule_A2_A6(ctx, rid2='A2', rid6='A6'):
     usi = prog.func('Sampler.update_shell_info')
     cp, tp = _boundary_tests(post)
     cu, tu = _boundary_tests(usi)
+    if not tp:
+        # the view taken by counting from the END of each shell: p[-k:] with k = shell_n
+        neg = [x for x in ast.walk(post.node) if isinstance(x, ast.Subscript) and
+               isinstance(x.slice, ast.Slice) and x.slice.upper is None and
+               isinstance(x.slice.lower, ast.UnaryOp) and isinstance(x.slice.lower.op, ast.USub)]
+        if neg:
+            ctx.ob(rid2, 'boundary-rows(posterior)', False, post.where(neg[0]),
+                   'posterior() takes the rows in view as `%s`, the last k rows of each shell: '
+                   'for a shell with NO row in view (k = 0, e.g. right after the exploration '
+                   'was discarded) `x[-0:]` is the WHOLE shell - every exploration sample comes '
+                   'back with the weight of a shell that holds none; slice from the exploration '
+                   'boundary (`x[shell_end_exp[i]:]`) as update_shell_info does'
+                   % unparse(neg[0])[:40])
+            return
     ctx.require(len(tp) == 1 and len(tu) == 1, 'exploration-boundary tests not found '
                 '(posterior %d, update_shell_info %d)' % (len(tp), len(tu)))
     sp, su = tp[0][2], tu[0][2]
